@@ -21,16 +21,16 @@ Proof.
                 | context [match ?x with _ => _ end] => destruct x; try discriminate
                 end; inv H; reflexivity).
   - (* CSetup *)
-    destruct (c_pc s); try discriminate.
-    destruct (r_runners (inner s)) eqn:Er.
-    + destruct (step_r v (inner s) RRunCas) as [y|] eqn:Ey; inv H.
-      exists [RRunCas]. cbn [run_r]. rewrite Ey. reflexivity.
+    destruct (c_pc s) as [| |w| | |]; try discriminate.
+    destruct w.
     + destruct (step_r v (inner s) (RAddCheck CloseRunner)) as [x1|] eqn:E1; try discriminate.
       destruct (step_r v x1 (RAddAppend (length (r_adds (inner s))))) as [x2|] eqn:E2;
         try discriminate.
       destruct (step_r v x2 RRunCas) as [y|] eqn:Ey; inv H.
       exists [RAddCheck CloseRunner; RAddAppend (length (r_adds (inner s))); RRunCas].
       cbn [run_r]. rewrite E1, E2, Ey. reflexivity.
+    + destruct (step_r v (inner s) RRunCas) as [y|] eqn:Ey; inv H.
+      exists [RRunCas]. cbn [run_r]. rewrite Ey. reflexivity.
   - (* CInner *)
     destruct (inner_allowed e); try discriminate.
     destruct (step_r v (inner s) e) as [x|] eqn:Ex; inv H.
@@ -94,7 +94,7 @@ Proof.
   intros v grace bs cls es s p H Hp. apply cinv_reach in H.
   pose proof (closing_of_procs _ _ _ _ _ H Hp) as Hc.
   assert (Hr : exists rerrs, r_pc (inner s) = RReturned rerrs).
-  { destruct (c_pc s) as [| | |n i errs|errs] eqn:Epc; cbn in Hc; try tauto.
+  { destruct (c_pc s) as [| | | |n i errs|errs] eqn:Epc; cbn in Hc; try tauto.
     - destruct (ci_coll _ _ _ _ H n i errs Epc) as [_ [_ [rerrs [Hr _]]]]. eauto.
     - destruct (ci_done _ _ _ _ H errs Epc) as [_ [rerrs [Hr _]]]. eauto. }
   destruct Hr as [rerrs Hr]. pose proof (ci_inner _ _ _ _ H) as Ii.
@@ -155,7 +155,7 @@ Proof.
   - intros c e Hc. destruct (ci_kret _ _ _ _ H c e Hc) as [Hs _].
     destruct (ci_stopped _ _ _ _ H Hs) as [Hpc|Hpc].
     + left. split; auto. apply (ci_early _ _ _ _ H). rewrite Hpc. cbn. tauto.
-    + right. destruct (c_pc s) as [| | | |errs] eqn:Epc; cbn in Hpc; try tauto.
+    + right. destruct (c_pc s) as [| | | | |errs] eqn:Epc; cbn in Hpc; try tauto.
       exists errs. split; auto. apply (ci_done _ _ _ _ H errs Epc).
 Qed.
 
@@ -214,7 +214,7 @@ Qed.
    and one in which the closers finish in time (no fatal) *)
 Example fatal_fires :
   exists s, run_c Fixed (new_cm true [] [None])
-                  [CRunCas; CSetup; CInner RSpawn; CInner RRunReturn; CClosing; CCloserStart 0;
+                  [CRunCas; CSetupLen; CSetup; CInner RSpawn; CInner RRunReturn; CClosing; CCloserStart 0;
                    CCloserStart 1; CFire; CFatal; CCloserReturn 1; CCollectCloser 0;
                    CCloseFatalCh; CCollectCloser 1; CRunReturn] = Some s /\
             fatal_count s = 1 /\ fired_early s = true /\ tie s = false /\
@@ -223,7 +223,7 @@ Proof. eexists. split; [vm_compute; reflexivity|]. repeat split. Qed.
 
 Example fatal_does_not_fire :
   exists s, run_c Fixed (new_cm true [] [None])
-                  [CRunCas; CSetup; CInner RSpawn; CInner RRunReturn; CClosing; CCloserStart 0;
+                  [CRunCas; CSetupLen; CSetup; CInner RSpawn; CInner RRunReturn; CClosing; CCloserStart 0;
                    CCloserStart 1; CCloserReturn 1; CCollectCloser 1; CCloseFatalCh; CFatalQuit;
                    CCollectCloser 0; CRunReturn] = Some s /\
             fatal_count s = 0 /\ fired_early s = false /\ tie s = false /\
@@ -286,7 +286,7 @@ Proof.
     induction es' as [|e es' IH]; intros s H Hpc Hr s' Hrun; cbn in Hrun.
     + inv Hrun. split; [auto|].
       destruct (ci_early _ _ _ _ H) as [Hnp _]; [rewrite Hpc; cbn; tauto|].
-      destruct (ci_inner_idle _ _ _ _ H (or_introl Hpc)) as [Hipc _].
+      destruct (ci_inner_idle _ _ _ _ H ltac:(rewrite Hpc; exact Logic.I)) as [Hipc _].
       split; [auto|]. split.
       { apply (i_noprocs _ _ _ (ci_inner _ _ _ _ H)). auto. }
       split.
@@ -302,7 +302,7 @@ Qed.
    one after it; Run and both Close calls return the join *)
 Example full_run :
   exists s, run_c Fixed (new_cm false [Free (Some 5%Z)] [Some 9%Z])
-                  [CRunCas; CSetup; CInner RSpawn; CCloseBegin; CCloseStep 0;
+                  [CRunCas; CSetupLen; CSetup; CInner RSpawn; CCloseBegin; CCloseStep 0;
                    CInner (RRunnerReturn 1); CInner (RCollect 1); CInner (RRunnerReturn 0);
                    CInner (RCollect 0); CInner RRunReturn; CClosing; CCloserStart 0;
                    CCloserReturn 0; CCloseFatalCh; CCollectCloser 0; CRunReturn; CCloseStep 0;
@@ -344,7 +344,7 @@ Lemma cm_add_before_start_accepted : forall v grace bs cls es s b,
 Proof.
   intros v grace bs cls es s b H Hr. apply cinv_reach in H.
   destruct (ci_notrun _ _ _ _ H Hr) as [Hpc _].
-  destruct (ci_inner_idle _ _ _ _ H (or_introl Hpc)) as [_ Hir].
+  destruct (ci_inner_idle _ _ _ _ H ltac:(rewrite Hpc; exact Logic.I)) as [_ Hir].
   destruct (rm_add_before_start v (inner s) b Hir) as [x1 [x2 [E1 [E2 [Hrun Hadd]]]]].
   cbn [step_c]. rewrite Hr, E1. eexists. eexists. split; [reflexivity|].
   cbn [step_c cadds w_cadds w_inner inner]. rewrite nth_error_app_len.
@@ -352,15 +352,45 @@ Proof.
   split; [reflexivity|]. cbn [inner w_inner]. auto.
 Qed.
 
-(* The Close-watching runner.  On the fixed code, once Run has set the inner manager going, the
-   inner manager is running and its runner slice is either empty or contains the close-runner. *)
+(* ------------------------------------------------------------------------------------------ *)
+(* The Close-watching runner.
+
+   Run decides whether to add it from an UNLOCKED read of len(mngr.runners) ([CSetupLen]) and adds
+   it later ([CSetup]).  An Add call that passed its tests before Run was called and appends
+   between the two leaves a run without close-runner: [cm_close_reaches_runners_refuted], on the
+   current code.  Under the discipline that Run is not started while an Add call is in flight
+   ("calm" schedules) Close always reaches the runners. *)
+
+Definition no_pending_add (x : rstate) : bool :=
+  forallb (fun a => match a with AChecked _ => false | _ => true end) (r_adds x).
+
+Definition calm (s : cstate) : bool :=
+  match c_pc s with CDecided _ => no_pending_add (inner s) | _ => true end.
+
+(* a run all of whose states are calm *)
+Fixpoint run_calm (v : variant) (s : cstate) (es : list cev) : option cstate :=
+  match es with
+  | [] => Some s
+  | e :: es' =>
+      if calm s
+      then match step_c v s e with Some s' => run_calm v s' es' | None => None end
+      else None
+  end.
+
+Lemma run_calm_run v es : forall s s', run_calm v s es = Some s' -> run_c v s es = Some s'.
+Proof.
+  induction es as [|e es IH]; intros s s' H; cbn in *; auto.
+  destruct (calm s); try discriminate. destruct (step_c v s e); try discriminate. auto.
+Qed.
+
 Definition after_setup (pc : cpc) : Prop :=
-  match pc with CIdle | CStarted => False | _ => True end.
+  match pc with CIdle | CStarted | CDecided _ => False | _ => True end.
 
 Definition winv (s : cstate) : Prop :=
-  after_setup (c_pc s) ->
-  r_running (inner s) = true /\
-  (r_runners (inner s) = [] \/ In CloseRunner (r_runners (inner s))).
+  (c_pc s = CDecided false -> r_runners (inner s) = []) /\
+  (after_setup (c_pc s) ->
+   r_running (inner s) = true /\
+   (r_runners (inner s) = [] \/ In CloseRunner (r_runners (inner s)))).
 
 Lemma step_r_fixed_keeps x ev y :
   step_r Fixed x ev = Some y -> r_running x = true ->
@@ -370,6 +400,24 @@ Proof.
     repeat match type of H with
            | context [match ?x with _ => _ end] => destruct x; try discriminate
            end; inv H; cbn; auto.
+Qed.
+
+(* events other than the locked append never touch the runner slice *)
+Lemma step_r_runners v x ev y :
+  step_r v x ev = Some y -> (forall a, ev <> RAddAppend a) -> r_runners y = r_runners x.
+Proof.
+  intros H Hn. destruct ev; cbn [step_r] in H; try (exfalso; eapply Hn; reflexivity);
+    repeat match type of H with
+           | context [match ?x with _ => _ end] => destruct x; try discriminate
+           end; inv H; cbn; auto.
+Qed.
+
+Lemma pending_blocks_append x a y v :
+  no_pending_add x = true -> step_r v x (RAddAppend a) = Some y -> False.
+Proof.
+  unfold no_pending_add. intros Hn H. cbn [step_r] in H.
+  destruct (nth_error (r_adds x) a) as [[b| |]|] eqn:Ea; try discriminate.
+  rewrite forallb_forall in Hn. specialize (Hn _ (nth_error_In _ _ Ea)). discriminate.
 Qed.
 
 Ltac split_all H :=
@@ -385,95 +433,128 @@ Ltac same_inner H W s0 :=
       let Hk := fresh "Hk" in
       assert (Hk : inner s1 = inner s0 /\ c_pc s1 = c_pc s0)
         by (split_all H; inv H; cbn; split; reflexivity);
-      destruct Hk as [Hk1 Hk2]; rewrite Hk1, Hk2; exact W
+      destruct Hk as [Hk1 Hk2]; unfold winv; rewrite Hk1, Hk2; exact W
   end.
 
-Lemma winv_step grace bs s e s' :
-  cinv Fixed grace bs s -> winv s -> step_c Fixed s e = Some s' -> winv s'.
+(* events that change the inner manager by one step that is not a locked append *)
+Lemma winv_inner_step s x ev :
+  winv s -> step_r Fixed (inner s) ev = Some x ->
+  (forall a, ev <> RAddAppend a) -> winv (w_inner s x).
 Proof.
-  intros I W H. unfold winv in *.
-  destruct e; cbn [step_c] in H.
+  intros [W1 W2] Ex Hn. pose proof (step_r_runners _ _ _ _ Ex Hn) as Hrn.
+  unfold winv. cbn [inner c_pc w_inner]. rewrite Hrn. split; [exact W1|].
+  intro Ha. destruct (W2 Ha) as [Hr Hw]. split; auto.
+  destruct ev; cbn [step_r] in Ex;
+    repeat match type of Ex with
+           | context [match ?x with _ => _ end] => destruct x; try discriminate
+           end; inv Ex; cbn; auto.
+Qed.
+
+Lemma winv_step grace bs s e s' :
+  cinv Fixed grace bs s -> winv s -> calm s = true -> step_c Fixed s e = Some s' -> winv s'.
+Proof.
+  intros Ci W Hcalm H. destruct e; cbn [step_c] in H.
   - (* CRunCas *)
-    destruct (c_running s) eqn:Er; inv H; cbn; auto. tauto.
+    destruct W as [W1 W2]. destruct (c_running s) eqn:Er; inv H; unfold winv; cbn; auto.
+    split; [discriminate | tauto].
+  - (* CSetupLen *)
+    destruct (c_pc s) eqn:Epc; try discriminate. inv H. unfold winv. cbn. split; [|tauto].
+    intro Hw. destruct (r_runners (inner s)); [reflexivity | discriminate].
   - (* CSetup *)
-    destruct (c_pc s) eqn:Epc; try discriminate.
-    destruct (ci_inner_idle _ _ _ _ I (or_intror Epc)) as [_ Hir].
-    intros _. destruct (r_runners (inner s)) as [|b0 t] eqn:Ern.
-    + destruct (step_r Fixed (inner s) RRunCas) as [y|] eqn:Ey; inv H.
-      cbn [step_r] in Ey. rewrite Hir in Ey. inv Ey. cbn. rewrite Ern. auto.
+    destruct W as [W1 _]. destruct (c_pc s) as [| |w| | |] eqn:Epc; try discriminate.
+    destruct (ci_inner_idle _ _ _ _ Ci ltac:(rewrite Epc; exact Logic.I)) as [_ Hir].
+    unfold winv. destruct w.
     + cbn [step_r] in H. rewrite Hir in H. cbn [r_adds] in H. rewrite nth_error_app_len in H.
-      cbn [r_running is_fixed andb r_runners] in H. inv H. cbn. split; auto. right.
-      rewrite Ern. apply in_or_app. right. left. reflexivity.
+      cbn [r_running is_fixed andb r_runners] in H. inv H. cbn. split; [discriminate|].
+      intros _. split; auto. right. apply in_or_app. right. left. reflexivity.
+    + destruct (step_r Fixed (inner s) RRunCas) as [y|] eqn:Ey; inv H.
+      cbn [step_r] in Ey. rewrite Hir in Ey. inv Ey. cbn. split; [discriminate|].
+      intros _. split; auto.
   - (* CInner *)
-    destruct (inner_allowed e); try discriminate.
-    destruct (step_r Fixed (inner s) e) as [x|] eqn:Ex; inv H. cbn.
-    intro Ha. destruct (W Ha) as [Hr Hw]. destruct (step_r_fixed_keeps _ _ _ Ex Hr) as [Hr' ->]. auto.
-  - destruct (c_pc s) eqn:Epc; try discriminate. destruct (r_pc (inner s)); try discriminate.
-    inv H. cbn. intros _. apply W. exact Logic.I.
+    destruct (inner_allowed e) eqn:Eal; try discriminate.
+    destruct (step_r Fixed (inner s) e) as [x|] eqn:Ex; inv H.
+    apply winv_inner_step with (ev := e); auto.
+    intros a ->. discriminate.
+  - (* CClosing *)
+    destruct W as [_ W2]. destruct (c_pc s) eqn:Epc; try discriminate.
+    destruct (r_pc (inner s)); try discriminate.
+    inv H. unfold winv. cbn. split; [discriminate|]. intros _. apply W2. exact Logic.I.
   - same_inner H W s.
   - same_inner H W s.
   - same_inner H W s.
   - same_inner H W s.
   - same_inner H W s.
   - same_inner H W s.
-  - destruct (c_pc s) eqn:Epc; try discriminate.
-    split_all H. inv H. cbn. intros _. apply W. exact Logic.I.
-  - destruct (c_pc s) eqn:Epc; try discriminate.
-    destruct (i <=? n)%nat; inv H. cbn. intros _. apply W. exact Logic.I.
+  - (* CCollectCloser *)
+    destruct W as [_ W2]. destruct (c_pc s) eqn:Epc; try discriminate.
+    split_all H. inv H. unfold winv. cbn. split; [discriminate|]. intros _. apply W2. exact Logic.I.
+  - (* CRunReturn *)
+    destruct W as [_ W2]. destruct (c_pc s) eqn:Epc; try discriminate.
+    destruct (i <=? n)%nat; inv H. unfold winv. cbn. split; [discriminate|].
+    intros _. apply W2. exact Logic.I.
   - (* CCloseBegin *)
-    destruct (step_r Fixed (inner s) RCloseCh) as [x|] eqn:Ex; inv H. cbn.
-    intro Ha. destruct (W Ha) as [Hr Hw]. destruct (step_r_fixed_keeps _ _ _ Ex Hr) as [Hr' ->]. auto.
+    destruct (step_r Fixed (inner s) RCloseCh) as [x|] eqn:Ex; inv H.
+    assert (Hw : winv (w_inner s x)).
+    { apply winv_inner_step with (ev := RCloseCh); auto. intros a Ha. discriminate. }
+    exact Hw.
   - (* CCloseStep *)
     same_inner H W s.
-  - inv H. cbn. auto.
+  - same_inner H W s.
   - same_inner H W s.
   - (* CAddCheck *)
     destruct (c_running s) eqn:Er.
-    + inv H. cbn. auto.
-    + destruct (ci_notrun _ _ _ _ I Er) as [Hpc _].
-      destruct (step_r Fixed (inner s) (RAddCheck b)); inv H. cbn. rewrite Hpc. cbn. tauto.
+    + inv H. exact W.
+    + destruct (step_r Fixed (inner s) (RAddCheck b)) as [x|] eqn:Ex; inv H.
+      assert (Hw : winv (w_inner s x)).
+      { apply winv_inner_step with (ev := RAddCheck b); auto. intros a Ha. discriminate. }
+      exact Hw.
   - (* CAddAppend *)
     destruct (nth_error (cadds s) k) as [[|a]|]; try discriminate.
     destruct (lock_held s); try discriminate.
-    destruct (step_r Fixed (inner s) (RAddAppend a)) as [x|] eqn:Ex; inv H. cbn.
-    intro Ha. destruct (W Ha) as [Hr Hw]. destruct (step_r_fixed_keeps _ _ _ Ex Hr) as [Hr' ->]. auto.
+    destruct (step_r Fixed (inner s) (RAddAppend a)) as [x|] eqn:Ex; inv H.
+    destruct W as [W1 W2]. unfold winv. cbn [inner c_pc w_inner]. split.
+    + intro Hpc. exfalso. unfold calm in Hcalm. rewrite Hpc in Hcalm.
+      eapply pending_blocks_append; eauto.
+    + intro Ha. destruct (W2 Ha) as [Hr Hw].
+      destruct (step_r_fixed_keeps _ _ _ Ex Hr) as [Hr' ->]. auto.
 Qed.
 
 Lemma winv_run grace bs es : forall s s',
-  cinv Fixed grace bs s -> winv s -> run_c Fixed s es = Some s' -> winv s'.
+  cinv Fixed grace bs s -> winv s -> run_calm Fixed s es = Some s' -> winv s'.
 Proof.
   induction es as [|e es IH]; intros s s' Ci W H; cbn in H.
   - inv H; auto.
-  - destruct (step_c Fixed s e) as [s1|] eqn:E; try discriminate.
+  - destruct (calm s) eqn:Ec; try discriminate.
+    destruct (step_c Fixed s e) as [s1|] eqn:E; try discriminate.
     apply (IH s1 s'); auto.
     + eapply cinv_step; eauto.
     + eapply winv_step; eauto.
 Qed.
 
-(* CLOSE REACHES THE RUNNERS (fixed code; managers assembled through the constructor, through Add, or
-   both).  Whenever runner goroutines exist, one of them is the close-runner; while it runs, a
-   closed closeCh lets it return - which (C12_cancel_on_first_return, through
+(* CLOSE REACHES THE RUNNERS (fixed code; managers assembled through the constructor, through Add,
+   or both; calm schedules).  Whenever runner goroutines exist, one of them is the close-runner;
+   while it runs, a closed closeCh lets it return - which (C12_cancel_on_first_return, through
    C12_inner_is_runner_manager) cancels the context of all the others. *)
 Lemma cm_close_reaches_runners : forall grace bs cls es s,
-  run_c Fixed (new_cm grace bs cls) es = Some s ->
+  run_calm Fixed (new_cm grace bs cls) es = Some s ->
   r_procs (inner s) <> [] ->
   exists i p, nth_error (r_procs (inner s)) i = Some p /\ p_beh p = CloseRunner /\
     (p_st p = Running -> r_closech (inner s) = true ->
        exists s', step_c Fixed s (CInner (RRunnerReturn i)) = Some s').
 Proof.
   intros grace bs cls es s H Hne.
-  assert (Ci : cinv Fixed grace bs s) by (eapply cinv_reach; eauto).
+  assert (Ci : cinv Fixed grace bs s) by (eapply cinv_reach; eapply run_calm_run; eauto).
   assert (W : winv s).
-  { eapply winv_run; [apply cinv_init | | exact H]. unfold winv. cbn. tauto. }
+  { eapply winv_run; [apply cinv_init | | exact H]. unfold winv. cbn. split; [discriminate|tauto]. }
   pose proof (ci_inner _ _ _ _ Ci) as Ii.
   assert (Hsp : spawned_pc (r_pc (inner s))).
   { destruct (r_pc (inner s)) eqn:Epc; cbn; auto;
       exfalso; apply Hne; apply (i_noprocs _ _ _ Ii); auto. }
   assert (Ha : after_setup (c_pc s)).
-  { destruct (c_pc s) eqn:Epc; cbn; auto.
-    - destruct (ci_inner_idle _ _ _ _ Ci (or_introl Epc)) as [Hi _]. rewrite Hi in Hsp. exact Hsp.
-    - destruct (ci_inner_idle _ _ _ _ Ci (or_intror Epc)) as [Hi _]. rewrite Hi in Hsp. exact Hsp. }
-  destruct (W Ha) as [_ Hw].
+  { destruct (c_pc s) eqn:Epc; cbn; auto;
+      destruct (ci_inner_idle _ _ _ _ Ci ltac:(rewrite Epc; exact Logic.I)) as [Hi _];
+      rewrite Hi in Hsp; exact Hsp. }
+  destruct W as [_ W2]. destruct (W2 Ha) as [_ Hw].
   destruct (i_snap _ _ _ Ii Hsp) as [tl [E Hf]]. rewrite (Hf eq_refl), app_nil_r in E.
   destruct Hw as [Hw|Hw].
   - exfalso. apply Hne. rewrite E in Hw. destruct (r_procs (inner s)); [reflexivity|discriminate].
@@ -483,11 +564,25 @@ Proof.
     unfold may_return. rewrite Hb, Hch, orb_true_r. eauto.
 Qed.
 
+(* Without the discipline, on the current code: Add passes its tests on an empty manager, Run
+   reads len(mngr.runners) = 0, Add appends and returns nil, the inner manager starts.  The one
+   runner is running, Close has been called (closeCh is closed), there is no close-runner, and the
+   runner - which waits for its context - cannot return: Close blocks until the caller's own
+   context ends. *)
+Lemma cm_close_reaches_runners_refuted :
+  exists s, run_c Fixed (new_cm false [] []) add_watcher_race = Some s /\
+            map p_beh (r_procs (inner s)) = [OnCancel None] /\
+            r_closech (inner s) = true /\ r_cancelled (inner s) = false /\
+            nth_error (closes s) 0 = Some KB /\ c_stopped s = false /\
+            step_c Fixed s (CInner (RRunnerReturn 0)) = None /\
+            step_c Fixed s (CCloseStep 0) = None.
+Proof. eexists. split; [vm_compute; reflexivity|]. repeat split. Qed.
+
 (* non-vacuity: a manager built EMPTY, runners registered through Add, Close during Run *)
 Example close_reaches_added_runners :
-  exists s, run_c Fixed (new_cm false [] [None])
+  exists s, run_calm Fixed (new_cm false [] [None])
                   [CAddCheck (OnCancel (Some 5%Z)); CAddAppend 0; CAddCheck CtxErr; CAddAppend 1;
-                   CRunCas; CSetup; CInner RSpawn; CCloseBegin; CCloseStep 0;
+                   CRunCas; CSetupLen; CSetup; CInner RSpawn; CCloseBegin; CCloseStep 0;
                    CInner (RRunnerReturn 2); CInner (RCollect 2); CInner (RRunnerReturn 0);
                    CInner (RRunnerReturn 1); CInner (RCollect 1); CInner (RCollect 0);
                    CInner RRunReturn; CClosing; CCloserStart 0; CCloserReturn 0; CCloseFatalCh;
